@@ -275,12 +275,7 @@ def w_partition(job):
                             lk = LinearIR.Linker(loader=loader)
                             for mi in perm:
                                 # a module object as loaded from its file: fresh in even histories, the kept one in odd histories
-                                if hidx % 2:
-                                    if mi not in kept:
-                                        kept[mi] = LinearIR.FilesystemModuleLoader().Load(nm(mi))
-                                    lk.AddModule(kept[mi])
-                                else:
-                                    lk.AddModule(LinearIR.FilesystemModuleLoader().Load(nm(mi)))
+                                lk.AddModule(LinearIR.FilesystemModuleLoader().Load(nm(mi)))
                             program = lk.Link()
                         outcome = ("linked", program)
                     except BaseException as e:
@@ -329,6 +324,30 @@ def w_partition(job):
                                  {"part": "link", "partition": parts, "placement": placement, "added": [nm(m) for m in perm], "sources": {nm(k): v for k, v in srcs.items()},
                                   "entry": e, "a": a, "expected": str(want), "observed": str(got)})
                             break
+                # the same histories once more with module objects that are loaded ONCE and handed to every linker: linking does not
+                # consume or change the modules it is given
+                for perm in adds:
+                    if (set(perm) & {d_ for m_ in perm for d_ in deps[m_]}):
+                        continue
+                    first = [o for p, o in by_set[frozenset(perm)] if p == perm][0]
+                    stats["link_histories"] += 1
+                    try:
+                        with pool.quiet():
+                            lk = LinearIR.Linker(loader=CountingLoader())
+                            for mi in perm:
+                                if mi not in kept:
+                                    kept[mi] = LinearIR.FilesystemModuleLoader().Load(nm(mi))
+                                lk.AddModule(kept[mi])
+                            program2 = lk.Link()
+                        again = ("linked", sorted(program2.Functions), sorted(program2.Globals))
+                    except BaseException as e:
+                        again = ("rejected", type(e).__name__)
+                    was = ("linked", sorted(first[1].Functions), sorted(first[1].Globals)) if first[0] == "linked" else ("rejected", first[1])
+                    if again != was:
+                        fail(f"C16|{bname}|relinking-kept-module-objects-differs|added={len(perm)};modules={len(parts)}",
+                             {"part": "order", "partition": parts, "placement": placement, "sources": {nm(k): v for k, v in srcs.items()},
+                              "expected": f"as with freshly loaded modules: {str(was)[:200]}", "observed": str(again)[:200]})
+                        break
                 # order independence for every set of explicitly added modules
                 for s, runs in by_set.items():
                     kinds = {o[0] for _, o in runs}
